@@ -5,6 +5,8 @@ import (
 	"bytes"
 	"errors"
 	"fmt"
+	"sort"
+	"strings"
 	"testing"
 
 	"github.com/tonkeeper/tongo/boc"
@@ -207,7 +209,10 @@ var dictProof = &core.Check{Name: "c18/dict", Quick: 1200, Thorough: 100000, Fn:
 		}
 		var perr error
 		var aproof []byte
-		if p := core.Protect(func() error { _, aproof, perr = tlb.ProveKeyInHashmap[tlb.Uint32](prover, cell, gen.BitString(k)); return nil }); p != nil {
+		if p := core.Protect(func() error {
+			_, aproof, perr = tlb.ProveKeyInHashmap[tlb.Uint32](prover, cell, gen.BitString(k))
+			return nil
+		}); p != nil {
 			return fmt.Errorf("ProveKeyInHashmap panicked for an absent key %s: %v", k, p)
 		}
 		if perr == nil {
@@ -341,18 +346,50 @@ var cursorProof = &core.Check{Name: "c18/cursor", Quick: 1500, Thorough: 120000,
 	cur := prover.Cursor()
 	np := c.Intn("prunes", 5)
 	pruned := 0
+	type held struct {
+		cur  *boc.Cursor
+		path []int
+	}
+	var holds []held
+	// cursors are first collected (children of one cursor are taken side by side and kept), then pruned
+	// in a drawn order: the API hands out independent positions
 	for i := 0; i < np; i++ {
 		x, rx := cur, root
-		steps := 0
+		var path []int
 		for d := c.Intn("plen", 6); d >= 0 && len(rx.Refs) > 0; d-- {
 			k := c.Intn("pref", len(rx.Refs))
-			x, rx = x.Ref(k), rx.Refs[k]
-			steps++
+			if c.Bool("siblings") { // take all children of this cursor, keep them, continue with the k-th
+				var kids []*boc.Cursor
+				for j := range rx.Refs {
+					kids = append(kids, x.Ref(j))
+				}
+				for j, kc := range kids {
+					if j != k && c.Intn("keep", 3) == 0 {
+						holds = append(holds, held{kc, append(append([]int{}, path...), j)})
+					}
+				}
+				x = kids[k]
+			} else {
+				x = x.Ref(k)
+			}
+			rx = rx.Refs[k]
+			path = append(path, k)
 		}
-		if steps > 0 {
-			x.Prune()
-			pruned++
+		if len(path) > 0 {
+			holds = append(holds, held{x, path})
 		}
+	}
+	wantPruned := map[string]bool{}
+	for len(holds) > 0 {
+		i := c.Choose("order", len(holds))
+		h := holds[i]
+		holds = append(holds[:i], holds[i+1:]...)
+		if c.Intn("skip", 4) == 0 {
+			continue
+		}
+		h.cur.Prune()
+		wantPruned[fmt.Sprint(h.path)] = true
+		pruned++
 	}
 	proof, err := prover.CreateProof(cur)
 	if err != nil {
@@ -364,6 +401,47 @@ var cursorProof = &core.Check{Name: "c18/cursor", Quick: 1500, Thorough: 120000,
 	}
 	if pruned > 0 && n == 0 {
 		return fmt.Errorf("%d cursors were pruned but the proof contains no pruned branch", pruned)
+	}
+	// the pruned branches of the proof are exactly at the positions pruned through the cursor API
+	// (a position below an already pruned one does not appear on its own)
+	rr, _ := ref.ParseBOC(proof)
+	got := map[string]bool{}
+	var walk func(x *ref.RCell, path []int)
+	walk = func(x *ref.RCell, path []int) {
+		if x.Special {
+			got[fmt.Sprint(path)] = true
+			return
+		}
+		for i, r := range x.Refs {
+			walk(r, append(append([]int{}, path...), i))
+		}
+	}
+	walk(rr[0].Refs[0], nil)
+	covered := func(p string, set map[string]bool) bool {
+		// p is covered when itself or one of its prefixes is in the set
+		var ints []int
+		fmt.Sscan(strings.NewReplacer("[", "", "]", "").Replace(p))
+		_ = ints
+		if set[p] {
+			return true
+		}
+		fields := strings.Fields(strings.Trim(p, "[]"))
+		for k := len(fields) - 1; k >= 1; k-- {
+			if set["["+strings.Join(fields[:k], " ")+"]"] {
+				return true
+			}
+		}
+		return false
+	}
+	for p := range wantPruned {
+		if !covered(p, got) {
+			return fmt.Errorf("position %s was pruned through its cursor but the proof still contains it in full (pruned branches are at %v)", p, keys(got))
+		}
+	}
+	for p := range got {
+		if !covered(p, wantPruned) {
+			return fmt.Errorf("the proof has a pruned branch at %s, which was not pruned through the cursor API (pruned: %v)", p, keys(wantPruned))
+		}
 	}
 	if n >= 2 {
 		c.NonTrivial(root.ReprHash(), proof)
@@ -378,3 +456,12 @@ func TestProp(t *testing.T) {
 }
 
 func TestReplay(t *testing.T) { core.Replay(t, dictProof, cursorProof) }
+
+func keys(m map[string]bool) []string {
+	var out []string
+	for k := range m {
+		out = append(out, k)
+	}
+	sort.Strings(out)
+	return out
+}
